@@ -4,6 +4,7 @@ import Drv.Names
 import Drv.Key
 import Drv.Store
 import Drv.Build
+import Drv.RunRec
 /-! JSON-lines driver over the executable model: one request per line in, one reply per line out. -/
 open Lean
 
@@ -15,6 +16,7 @@ def dispatch (j : Json) : Drv.R Json := do
   | "key" => Drv.Key.handle j
   | "store" => Drv.Store.handle j
   | "build" => Drv.Build.handle j
+  | "runrec" => Drv.RunRec.handle j
   | _ => throw "bad_op"
 
 partial def loop (h : IO.FS.Stream) (out : IO.FS.Stream) : IO Unit := do
